@@ -522,6 +522,10 @@ func vobRunACL(tr *TranslationInterceptor, acl *AccessControlInterceptor, ob vob
 		return rec
 	}
 	rec["built"] = true
+	if ob.Variant == "big" && !vobAttachBig(m) {
+		rec["scope"] = "variant-not-applicable"
+		return rec
+	}
 	svc := "temporal.api.workflowservice.v1.WorkflowService"
 	if ob.Root.Service == "admin" {
 		svc = "temporal.server.api.adminservice.v1.AdminService"
@@ -548,6 +552,31 @@ func vobRunACL(tr *TranslationInterceptor, acl *AccessControlInterceptor, ob vob
 		}
 	}
 	return rec
+}
+
+// vobAttachBig: the request also carries a large opaque payload (1.5 MiB, inside gRPC's and Temporal's limits) in its first
+// top-level field that can hold one (bytes, Payload, Payloads). The verdict on its namespace fields must not depend on its size.
+func vobAttachBig(m protoreflect.Message) bool {
+	big := bytes.Repeat([]byte{0x5a}, 3<<19)
+	fs := m.Descriptor().Fields()
+	for i := 0; i < fs.Len(); i++ {
+		fd := fs.Get(i)
+		if fd.IsList() || fd.IsMap() {
+			continue
+		}
+		switch {
+		case fd.Kind() == protoreflect.BytesKind:
+			m.Set(fd, protoreflect.ValueOfBytes(big))
+			return true
+		case fd.Kind() == protoreflect.MessageKind && fd.Message().FullName() == "temporal.api.common.v1.Payloads":
+			m.Set(fd, protoreflect.ValueOfMessage((&commonpb.Payloads{Payloads: []*commonpb.Payload{{Data: big}}}).ProtoReflect()))
+			return true
+		case fd.Kind() == protoreflect.MessageKind && fd.Message().FullName() == "temporal.api.common.v1.Payload":
+			m.Set(fd, protoreflect.ValueOfMessage((&commonpb.Payload{Data: big}).ProtoReflect()))
+			return true
+		}
+	}
+	return false
 }
 
 // vobScan walks a message by its descriptor (independent of the proxy's Go-field-name tables), opens event blobs, and counts the
